@@ -14,17 +14,22 @@ theorem calc_highest_spec (suit : Suit) (cs : List Card) :
     (∀ n : Nat, calcHighest suit cs = (n : Int) →
       ∃ c, cs[n]? = some c ∧ c.suit = suit ∧ (∀ c' ∈ cs, c'.suit = suit → c'.rank ≤ c.rank) ∧
         ∀ m c', m < n → cs[m]? = some c' → c'.suit = suit → c'.rank < c.rank) := by
-  sorry
+  exact calcHighest_spec suit cs
 
-/-- the position chosen by `_set_next_leader` is the Law's winner of the trick -/
-theorem trick_winner_is_law (trump : Suit) (cs : List Card) (hne : cs ≠ []) :
-    0 ≤ highestIdx trump cs ∧ WinsTrick trump cs (winnerIdx trump cs) := by
-  sorry
+/-- the position chosen by `_set_next_leader` is the Law's winner of the trick.
+`hok`: the cards are real cards (what `Card.__post_init__` accepts).  It is needed because the model's `Card`
+type allows the suit value `NT`, which cannot be constructed in Python; for such a "card" led in no-trump
+`calc_highest` returns −1 (`trick_winner_is_law_counterexample` in Lemmas/Play.lean).  Only "the card led is
+not of suit `NT`" is actually used (`trick_winner_is_law_of_head`). -/
+theorem trick_winner_is_law (trump : Suit) (cs : List Card) (hne : cs ≠ [])
+    (hok : ∀ c ∈ cs, c.ok = true) :
+    0 ≤ highestIdx trump cs ∧ WinsTrick trump cs (winnerIdx trump cs) :=
+  trick_winner_is_law_of_ok trump cs hne hok
 
 /-- with distinct cards the Law's winner is unique, so the model's choice is *the* winner -/
 theorem winner_unique (trump : Suit) (cs : List Card) (hnd : cs.Nodup) (i j : Nat)
     (hi : WinsTrick trump cs i) (hj : WinsTrick trump cs j) : i = j := by
-  sorry
+  exact winsTrick_unique trump cs hnd i j hi hj
 
 /-- the opening lead belongs to declarer's left-hand opponent, declarer's partner is dummy -/
 theorem opening_lead_and_dummy (c : Contract) (b : Fin 35) (d : Seat)
@@ -32,12 +37,15 @@ theorem opening_lead_and_dummy (c : Contract) (b : Fin 35) (d : Seat)
     ∃ s, PState.init c = some s ∧ s.leader = d.left ∧ s.active = d.left ∧ s.dummy = d.partner ∧
       s.declarer = d ∧ s.trump = bidDenom b ∧ s.trickNum = 1 ∧ s.trick = [] ∧ s.history = [] ∧
       s.takenNS = 0 ∧ s.takenEW = 0 := by
-  sorry
+  simp [PState.init, hb, hd]
 
 /-- a passed-out contract (or one without declarer) cannot be played -/
 theorem passed_out_not_playable (c : Contract) (h : c.finalBid = none ∨ c.declarer = none) :
     PState.init c = none := by
-  sorry
+  unfold PState.init
+  rcases h with h | h
+  · rw [h]
+  · rw [h]; split <;> simp_all
 
 /-- turns pass clockwise within a trick: the seat on turn is always `trick.length` seats after the leader,
 and a trick in progress has fewer than four cards -/
@@ -45,7 +53,10 @@ theorem turn_passes_clockwise (c : Contract) (s0 : PState) (h0 : PState.init c =
     (plays : List Card) :
     let s := runPlay s0 plays
     s.active = s.leader.rot s.trick.length ∧ s.trick.length < 4 ∧ s.trick.length = plays.length % 4 := by
-  sorry
+  intro s
+  have h := pinv_of_init h0 plays
+  have hl : s.trick.length = plays.length % 4 := h.len
+  exact ⟨h.act, by omega, hl⟩
 
 /-- the fourth card completes the trick: the seat that played the winning card leads (and is on turn for) the
 next trick, the trick is recorded with its leader and the four cards in the order played -/
@@ -56,7 +67,11 @@ theorem winner_leads_next (c : Contract) (s0 : PState) (h0 : PState.init c = som
     let tc := s.trick ++ [x]
     s'.leader = s.leader.rot (winnerIdx s.trump tc) ∧ s'.active = s'.leader ∧ s'.trick = [] ∧
     s'.history = ⟨s.leader, tc⟩ :: s.history ∧ s'.trickNum = s.trickNum + 1 := by
-  sorry
+  intro s s' tc
+  have _ := h0
+  have e : s' = playCard s x := rfl
+  rw [playCard_complete s x h3] at e
+  rw [e]; simp [tc]
 
 /-- the winner's side is credited exactly one trick, the other side nothing -/
 theorem one_trick_credited_to_winners_side (c : Contract) (s0 : PState) (h0 : PState.init c = some s0)
@@ -65,7 +80,13 @@ theorem one_trick_credited_to_winners_side (c : Contract) (s0 : PState) (h0 : PS
     let s' := playCard s x
     (s'.leader.side = .NS → s'.takenNS = s.takenNS + 1 ∧ s'.takenEW = s.takenEW) ∧
     (s'.leader.side = .EW → s'.takenEW = s.takenEW + 1 ∧ s'.takenNS = s.takenNS) := by
-  sorry
+  intro s s'
+  have _ := h0
+  have e : s' = playCard s x := rfl
+  rw [playCard_complete s x h3] at e
+  rw [e]
+  simp only [addTaken_leader, addTaken_takenNS, addTaken_takenEW]
+  constructor <;> intro hs <;> simp [hs]
 
 /-- a card that does not complete a trick changes neither leader, history nor the trick counts -/
 theorem incomplete_trick_step (c : Contract) (s0 : PState) (h0 : PState.init c = some s0)
@@ -74,7 +95,11 @@ theorem incomplete_trick_step (c : Contract) (s0 : PState) (h0 : PState.init c =
     let s' := playCard s x
     s'.leader = s.leader ∧ s'.active = s.active.left ∧ s'.trick = s.trick ++ [x] ∧ s'.history = s.history ∧
     s'.takenNS = s.takenNS ∧ s'.takenEW = s.takenEW ∧ s'.trickNum = s.trickNum := by
-  sorry
+  intro s s'
+  have _ := h0
+  have e : s' = playCard s x := rfl
+  rw [playCard_incomplete s x (Nat.ne_of_lt hlt)] at e
+  rw [e]; simp
 
 /-- the recorded history is exactly the played cards cut into tricks, each with its actual leader and its
 four cards in the order played; leader, current trick, trick number and both counts follow -/
@@ -86,19 +111,45 @@ theorem history_is_tricksOf (c : Contract) (s0 : PState) (h0 : PState.init c = s
     s.takenEW = wonBy s0.trump s0.leader .EW plays ∧
     s.trickNum = plays.length / 4 + 1 ∧
     s.takenNS + s.takenEW = plays.length / 4 := by
-  sorry
+  intro s
+  obtain ⟨b, d, _, _, hs0⟩ := init_some h0
+  have ht : s0.trick = [] := by rw [hs0]
+  have hh : s0.history = [] := by rw [hs0]
+  have hn : s0.takenNS = 0 := by rw [hs0]
+  have he : s0.takenEW = 0 := by rw [hs0]
+  obtain ⟨r1, r2, r3, r4, r5⟩ := run_tricksOf plays s0 ht
+  have hp := pinv_of_init h0 plays
+  refine ⟨?_, ?_, ?_, hp.tn, hp.tk⟩
+  · rw [hh] at r1
+    have r1' : s.history.reverse = (tricksOf s0.trump s0.leader plays).1 := by simpa using r1
+    have r2' : s.leader = (tricksOf s0.trump s0.leader plays).2.1 := r2
+    have r3' : s.trick = (tricksOf s0.trump s0.leader plays).2.2 := r3
+    rw [r1', r2', r3']
+  · have : s.takenNS = s0.takenNS + wonBy s0.trump s0.leader .NS plays := r4
+    omega
+  · have : s.takenEW = s0.takenEW + wonBy s0.trump s0.leader .EW plays := r5
+    omega
 
 /-- after thirteen tricks the two sides' counts total thirteen and play is over -/
 theorem after_52_cards (c : Contract) (s0 : PState) (h0 : PState.init c = some s0)
     (plays : List Card) (h52 : plays.length = 52) :
     let s := runPlay s0 plays
     s.takenNS + s.takenEW = 13 ∧ s.hasDone = true ∧ s.history.length = 13 ∧ s.trick = [] := by
-  sorry
+  intro s
+  have hp := pinv_of_init h0 plays
+  have h1 : s.takenNS + s.takenEW = plays.length / 4 := hp.tk
+  have h2 : s.trickNum = plays.length / 4 + 1 := hp.tn
+  have h3 : s.history.length = plays.length / 4 := hp.hl
+  have h4 : s.trick.length = plays.length % 4 := hp.len
+  refine ⟨by omega, ?_, by omega, ?_⟩
+  · simp only [PState.hasDone, decide_eq_true_eq]; omega
+  · apply List.eq_nil_of_length_eq_zero; omega
 
 /-- play is over exactly from the 52nd card on -/
 theorem has_done_iff_52 (c : Contract) (s0 : PState) (h0 : PState.init c = some s0)
     (plays : List Card) : (runPlay s0 plays).hasDone = true ↔ 52 ≤ plays.length := by
-  sorry
+  have h2 : (runPlay s0 plays).trickNum = plays.length / 4 + 1 := (pinv_of_init h0 plays).tn
+  simp only [PState.hasDone, decide_eq_true_eq]; omega
 
 /-! ### non-vacuity: spades are trumps; ♥A led, ♠2 ruffs, ♠5 over-ruffs, ♥K follows: position 2 wins.
 In NT the ♥A wins. -/
